@@ -366,6 +366,38 @@ def _regrid_dense(ctx: Ctx) -> None:
     fD = prog.find_method(ciD, "grid_")
     ctx.fn(fD)
     for mod, cls, kw in NONRIGID[:2]:
+        for ac_from, ac_to in ((True, False), (False, True)):
+            def thflag(mod=mod, cls=cls, kw=kw, ac_from=ac_from, ac_to=ac_to):
+                # the same sampling points, only the align_corners convention of the grid changes (Grid.__eq__ ignores the flag)
+                env = TEnv(ctx, 2)
+                it = env.it
+                g1 = it.new(env.Grid, size=(5, 4), spacing=(2, 3), align_corners=ac_from)
+                g2 = it.method(g1, "align_corners", ac_to)
+                env.grid = g1
+                t = env.make(mod, cls, kw, "parameter")
+                p0 = it.method(t, "data").clone()
+                it.method(t, "grid_", g2)
+                p1 = it.method(t, "data")
+                held = it.method(t, "grid")
+                Axes = env.prog.cls("deepali.core.grid", "Axes")
+                ax = lambda f: it.enum(Axes, "CUBE_CORNERS" if f else "CUBE")
+                W = it.enum(Axes, "WORLD")
+                flag = bool(it.method(held, "align_corners"))
+                # whatever grid the transform now holds, its parameters must describe the same world-space vectors as before
+                A_new = it.method(held, "transform", ax(flag), W, vectors=True)
+                A_old = it.method(g1, "transform", ax(ac_from), W, vectors=True)
+                w1 = symt.matmul(A_new, p1.permute([0, 2, 3, 1]).unsqueeze(-1)).squeeze(-1)
+                w0 = symt.matmul(A_old, p0.permute([0, 2, 3, 1]).unsqueeze(-1)).squeeze(-1)
+                if not teq(w1, w0):
+                    return False, (f"grid_(same grid with align_corners={ac_to}): the transform holds a grid with align_corners={flag} but its "
+                                   f"parameters are expressed in the other convention — the world-space field changed "
+                                   f"(first {to_rat(w1.flat()[0])} expected {to_rat(w0.flat()[0])})")
+                if flag != ac_to:
+                    return False, f"grid_(same grid with align_corners={ac_to}) keeps a grid with align_corners={flag}"
+                if "StationaryVelocity" in cls and bool(it.getattr(it.getattr(t, "exp"), "align_corners")) != flag:
+                    return False, "the exponential map uses another convention than the grid the transform holds"
+                return True, ""
+            _guard(ctx, "T6x.regrid", f"{cls}:flag-only:{ac_from}->{ac_to}", fD, f"class={cls} same grid, align_corners {ac_from}->{ac_to}", thflag)
         for ac_from, ac_to in ((True, False), (False, True), (True, True)):
             def thd(mod=mod, cls=cls, kw=kw, ac_from=ac_from, ac_to=ac_to):
                 env = TEnv(ctx, 2)
